@@ -63,6 +63,19 @@ def pred_kind(e: ast.AST, pol: bool, var: Optional[str] = None) -> Optional[Tupl
     return None
 
 
+def _strip_bool(e):
+    class S(ast.NodeTransformer):
+        def visit_Call(self, node):
+            self.generic_visit(node)
+            if isinstance(node.func, ast.Name) and node.func.id == "bool" and len(node.args) == 1 and not node.keywords:
+                return node.args[0]
+            return node
+
+    import copy as _copy
+
+    return S().visit(_copy.deepcopy(e))
+
+
 def validation_tests(prog, fn: FunctionInfo):
     """[(If node, [(kind, var)...] in source order)] for ifs whose body raises
     ValueError."""
@@ -76,7 +89,10 @@ def validation_tests(prog, fn: FunctionInfo):
         exc = body_raises[-1].exc
         name = canon(exc.func) if isinstance(exc, ast.Call) else canon(exc) if exc is not None else None
         kinds = []
-        t = unwrap_any(node.test)
+        from .common import deref_expr
+
+        # the test may sit in a temporary (a predicate helper inlined by A9): ``ok = bool(a and b and c); if not ok: raise``
+        t = unwrap_any(_strip_bool(deref_expr(prog, fn, node.test)))
         # split:  flag and (a or b or c)   /   a or b or c
         parts = []
         for c, p in conjuncts(t, True):
@@ -254,11 +270,27 @@ def check(ctx):
         val_var = canon(val_arg) if val_arg is not None else None
         sd_var = canon(sd_arg) if sd_arg is not None else None
         found = {"value": None, "sd": None}
+        # names connected to the recorded variable by plain copies (x = y): a helper inlined by A9 validates its renamed
+        # parameter and copies it back
+        def copies_of(name):
+            out, work = {name}, [name]
+            while work:
+                n_ = work.pop()
+                for t_, v_, s_, k_ in iter_stores(entry.node):
+                    if isinstance(t_, ast.Name) and isinstance(v_, ast.Name) and k_ == "assign":
+                        for a_, b_ in ((t_.id, v_.id), (v_.id, t_.id)):
+                            if a_ == n_ and b_ not in out:
+                                out.add(b_)
+                                work.append(b_)
+            return out
+
+        val_names = copies_of(val_var) if val_var and val_var.isidentifier() else {val_var}
+        sd_names = copies_of(sd_var) if sd_var and sd_var.isidentifier() else {sd_var}
         for node, kinds, exc in vts:
             vars_ = {k[1] for k in kinds if k}
-            if val_var in vars_:
+            if val_names & vars_:
                 found["value"] = (node, kinds, exc)
-            elif sd_var in vars_:
+            elif sd_names & vars_:
                 found["sd"] = (node, kinds, exc)
         # validation factored out into a helper: look one level into package callees that receive the variable
         if found["value"] is None or found["sd"] is None:
@@ -284,7 +316,8 @@ def check(ctx):
                 ctx.fail(entry, entry.node, f"no ValueError-raising validation of the returned {which} ({var}) before it is recorded", construct=f"<missing {which} validation in {entry.name}>")
                 continue
             node, kinds, exc = found[which]
-            have = [k[0] for k in kinds if k and k[1] == var]
+            names_ = val_names if which == "value" else sd_names
+            have = [k[0] for k in kinds if k and (k[1] == var or k[1] in names_)]
             summaries[entry.name][which] = have
             okexc = exc == "ValueError"
             miss = [n for n in need if n not in have]
@@ -305,12 +338,17 @@ def check(ctx):
                 ctx.fail(lc, lc.node, f"sibling entry points disagree on the {which} checklist: __call__ {a[which]} vs add {b[which]}", construct=f"sibling {which} checklist mismatch")
     # pair format under specified noise
     pair_ok = False
+    from .common import deref_canon as _dc
+
     for node in ast.walk(lc.node):
         if isinstance(node, ast.If):
             c = canon(node.test)
+            if not ("tuple" in c and "len(" in c):
+                c = _dc(prog, lc, node.test)  # the format test kept in a flag
             if "tuple" in c and "len(" in c and "2" in c:
-                # else branch must raise ValueError
-                for s in node.orelse:
+                # the branch taken for a malformed result must raise ValueError (else branch of the positive test, or
+                # the body of the negated one)
+                for s in list(node.orelse) + list(node.body):
                     for n in ast.walk(s):
                         if isinstance(n, ast.Raise) and n.exc is not None and canon(n.exc).startswith("ValueError"):
                             pair_ok = True
@@ -324,6 +362,17 @@ def check(ctx):
     vts = validation_tests(prog, lc)
     for node, kinds, exc in vts:
         tn = cfg.head_of(node)
+        # ``if flag: if bad(sd): raise`` is ``if flag and bad(sd): raise``: dominance is asked of the outermost enclosing
+        # if whose test is a plain flag (attribute / name), as long as the validation stays in its body
+        cur = node
+        for par in prog.ancestors(node):
+            if isinstance(par, ast.If) and any(x is cur for x in par.body) and isinstance(par.test, (ast.Attribute, ast.Name)):
+                tn = cfg.head_of(par)
+                cur = par
+            elif isinstance(par, (ast.If,)) and any(x is cur for x in par.body + par.orelse):
+                break
+            elif isinstance(par, ast.stmt):
+                break
         ctx.check(cfg.dominates(tn.id, rn.id), lc, node, "validation dominates the record call", "an observation can be recorded without passing this validation test", construct=f"record not dominated by {norm_stmt(node.test)[:80]}")
         for inc in incs:
             ctx.check(cfg.dominates(tn.id, cfg.node_of(inc).id), lc, node, "validation dominates func_count += 1", "func_count can advance without passing this validation test", construct=f"count not dominated by {norm_stmt(node.test)[:80]}")
